@@ -28,7 +28,8 @@ def judge(chk: Check, traces, name="ladder"):
             sc = t.get("scale", 1.0)
             f.write(json.dumps({"id": t["id"], "errs": [fp(e, sc) for e in t["errs"]],
                                 "floor": fp(t["floor"], 1.0), "lo": list(t["lo"]), "hi": list(t.get("hi", (0, 1))),
-                                "first": t.get("first", 1), "bound": fp(t["bound"], 1.0)}) + "\n")
+                                "first": t.get("first", 1), "bound": fp(t["bound"], 1.0),
+                                "ceil": fp(t.get("ceil", 1.0), 1.0)}) + "\n")
     chk.tlc("Ladder", "SPECIFICATION Spec\nCHECK_DEADLOCK FALSE\n",
             env={"LADDER_TRACES": str(wd / "traces.ndjson"), "LADDER_OUT": str(out)}, name=f"Ladder-{name}",
             workers=4)
